@@ -1,1 +1,518 @@
+(* C17_Proofs.v — proofs of the C17 theorems. *)
+From Coq Require Import Lia.
 From V Require Import C17_Spec.
+Open Scope N_scope.
+
+(* ================= header maps ================= *)
+Lemma hm_get_put k k' vs h :
+  hm_get k (hm_put k' vs h) = if bytes_eqb k k' then Some vs else hm_get k h.
+Proof.
+  induction h as [|[k0 v0] h IH]; simpl.
+  - destruct (bytes_eqb k k'); reflexivity.
+  - destruct (bytes_eqb_spec k' k0) as [->|N0]; simpl.
+    + destruct (bytes_eqb_spec k k0); reflexivity.
+    + rewrite IH. destruct (bytes_eqb_spec k k0) as [->|N1]; [|reflexivity].
+      destruct (bytes_eqb_spec k0 k'); [congruence|reflexivity].
+Qed.
+
+Lemma hm_vals_put k k' vs h :
+  hm_vals k (hm_put k' vs h) = if bytes_eqb k k' then vs else hm_vals k h.
+Proof. unfold hm_vals. rewrite hm_get_put. destruct (bytes_eqb k k'); reflexivity. Qed.
+
+Lemma hm_vals_add k n v h :
+  hm_vals k (hm_add n v h) = if bytes_eqb k (canon n) then hm_vals k h ++ [v] else hm_vals k h.
+Proof.
+  unfold hm_add. rewrite hm_vals_put. destruct (bytes_eqb_spec k (canon n)) as [->|]; reflexivity.
+Qed.
+
+Lemma hm_get_add k n v h :
+  hm_get k (hm_add n v h) = if bytes_eqb k (canon n) then Some (hm_vals (canon n) h ++ [v]) else hm_get k h.
+Proof. unfold hm_add. cbv zeta. now rewrite hm_get_put. Qed.
+
+Lemma fold_add_vals k n vs h :
+  hm_vals k (fold_left (fun h v => hm_add n v h) vs h) =
+  if bytes_eqb k (canon n) then hm_vals k h ++ vs else hm_vals k h.
+Proof.
+  revert h; induction vs as [|v vs IH]; intros h; simpl.
+  - destruct (bytes_eqb k (canon n)); [now rewrite app_nil_r|reflexivity].
+  - rewrite IH, hm_vals_add. destruct (bytes_eqb k (canon n)); [|reflexivity].
+    now rewrite <- app_assoc.
+Qed.
+
+Lemma add_headers_vals k hs h :
+  hm_vals k (add_headers hs h) = hm_vals k h ++ values_of k hs.
+Proof.
+  revert h; induction hs as [|hd hs IH]; intros h; simpl.
+  - now rewrite app_nil_r.
+  - unfold add_headers in *. simpl. rewrite IH. unfold add_header. rewrite fold_add_vals.
+    destruct (bytes_eqb k (canon (h_name hd))); [now rewrite <- app_assoc|reflexivity].
+Qed.
+
+(* "Trailer:" + anything is left alone by the canonicaliser: the colon is not a token byte *)
+Lemma canon_prefixed x : canon (trailer_prefix ++ x) = trailer_prefix ++ x.
+Proof. reflexivity. Qed.
+
+Lemma In_canon_go c u s : In c (canon_go u s) -> c = 58 -> In 58 s.
+Proof.
+  revert u; induction s as [|a s IH]; intros u H E; simpl in *; [exact H|]. subst c.
+  destruct H as [H|H]; [|right; exact (IH _ H eq_refl)].
+  left.
+  destruct (u && (97 <=? a) && (a <=? 122)) eqn:E1.
+  - apply andb_true_iff in E1 as [E1 E3]. apply andb_true_iff in E1 as [_ E2].
+    apply N.leb_le in E2, E3. lia.
+  - destruct (negb u && (65 <=? a) && (a <=? 90)) eqn:E2; [|exact H].
+    apply andb_true_iff in E2 as [E2 E4]. apply andb_true_iff in E2 as [_ E3].
+    apply N.leb_le in E3, E4. lia.
+Qed.
+
+Lemma token_no_colon s : token s -> ~ In 58 s.
+Proof.
+  unfold token. intros H HI. rewrite forallb_forall in H. specialize (H _ HI). discriminate.
+Qed.
+
+Lemma canon_token_no_colon s : token s -> ~ In 58 (canon s).
+Proof.
+  intros T HI. unfold canon in HI. unfold token in T. rewrite T in HI.
+  apply (token_no_colon s T). exact (In_canon_go _ _ _ HI eq_refl).
+Qed.
+
+Lemma prefixed_has_colon x : In 58 (trailer_prefix ++ x).
+Proof. simpl. do 7 right. left. reflexivity. Qed.
+
+Lemma add_trailers_vals k ts h :
+  hm_vals (trailer_prefix ++ k) (add_trailers ts h) = hm_vals (trailer_prefix ++ k) h ++ values_of k ts.
+Proof.
+  revert h; induction ts as [|hd ts IH]; intros h; simpl.
+  - now rewrite app_nil_r.
+  - unfold add_trailers in *. simpl. rewrite IH. unfold add_trailer. rewrite fold_add_vals.
+    rewrite canon_prefixed.
+    destruct (bytes_eqb_spec (trailer_prefix ++ k) (trailer_prefix ++ canon (h_name hd))) as [E|NE].
+    + apply app_inv_head in E. subst k. rewrite bytes_eqb_refl. now rewrite <- app_assoc.
+    + destruct (bytes_eqb_spec k (canon (h_name hd))) as [->|]; [congruence|reflexivity].
+Qed.
+
+(* keys other than "Trailer:..." are not touched by AddTrailers *)
+Lemma add_trailers_other k ts h :
+  ~ In 58 k -> hm_vals k (add_trailers ts h) = hm_vals k h.
+Proof.
+  intros NC. revert h; induction ts as [|hd ts IH]; intros h; simpl; [reflexivity|].
+  unfold add_trailers in *. simpl. rewrite IH. unfold add_trailer. rewrite fold_add_vals, canon_prefixed.
+  destruct (bytes_eqb_spec k (trailer_prefix ++ canon (h_name hd))) as [->|]; [|reflexivity].
+  exfalso. apply NC, prefixed_has_colon.
+Qed.
+
+Lemma hm_get_notin k (l : hmap) : ~ In k (map fst l) -> hm_get k l = None.
+Proof.
+  induction l as [|[k0 v0] l IH]; simpl; intros H; [reflexivity|].
+  destruct (bytes_eqb_spec k k0) as [->|]; [exfalso; apply H; left; reflexivity|].
+  apply IH. intros HI. apply H. right. exact HI.
+Qed.
+
+Lemma restore_get k (l acc : hmap) :
+  NoDup (map fst l) ->
+  hm_get k (fold_left (fun h kv => hm_put (fst kv) (snd kv) h) l acc) =
+  match hm_get k l with Some vs => Some vs | None => hm_get k acc end.
+Proof.
+  revert acc; induction l as [|[k0 v0] l IH]; intros acc ND; simpl; [reflexivity|].
+  inversion ND as [|? ? Hn ND']; subst. rewrite (IH _ ND'). rewrite hm_get_put.
+  destruct (bytes_eqb_spec k k0) as [->|]; [|reflexivity].
+  now rewrite (hm_get_notin _ _ Hn).
+Qed.
+
+Lemma restore_vals k (l : hmap) :
+  NoDup (map fst l) ->
+  hm_vals k (fold_left (fun h kv => hm_put (fst kv) (snd kv) h) l []) = hm_vals k l.
+Proof.
+  intros ND. unfold hm_vals. rewrite (restore_get k l [] ND). simpl. destruct (hm_get k l); reflexivity.
+Qed.
+
+(* ================= body encoders ================= *)
+Lemma be_decode_be32 n : n < 4294967296 -> be_decode (be32 n) 0 = n.
+Proof.
+  intros H. unfold be32. cbn [be_decode].
+  Local Ltac Zify.zify_post_hook ::= Z.to_euclidean_division_equations.
+  lia.
+Qed.
+
+Section Bodies.
+  Variable compress : N -> bytes -> bytes.
+  Variable decompress : N -> bytes -> option bytes.
+  Notation payload_of := (payload_of compress).
+  Notation frame := (frame compress).
+  Notation wire := (wire compress).
+  Notation declared := (declared compress).
+
+  Lemma message_exact_proof oc :
+    contents_ok oc -> write_message compress oc = (payload_of oc, false).
+  Proof.
+    destruct oc as [c|]; simpl; [|reflexivity].
+    destruct (data_bytes (c_data c)); [|reflexivity]. intros ->. reflexivity.
+  Qed.
+
+  Lemma decode_payload_ok oc :
+    codec_ok compress decompress -> contents_ok oc ->
+    decode_payload decompress oc (payload_of oc) = Some (data_of oc).
+  Proof.
+    intros OK H. destruct oc as [c|]; simpl in *; [|reflexivity].
+    destruct (data_bytes (c_data c)) as [d|]; [|reflexivity].
+    unfold decompress_with, compress_with. destruct (comp_identity (c_comp c)); [reflexivity|apply OK].
+  Qed.
+
+  Lemma message_invertible_proof c d :
+    codec_ok compress decompress -> comp_known (c_comp c) = true -> data_bytes (c_data c) = Some d ->
+    write_message compress (Some c) = (payload_of (Some c), false) /\
+    decompress_with decompress (c_comp c) (fst (write_message compress (Some c))) = Some d.
+  Proof.
+    intros OK K D. simpl. rewrite D, K. split; [reflexivity|]. simpl.
+    unfold decompress_with, compress_with. destruct (comp_identity (c_comp c)); [reflexivity|apply OK].
+  Qed.
+
+  Lemma wire_cons it items : wire (it :: items) = frame it ++ wire items.
+  Proof. reflexivity. Qed.
+  Lemma frame_unfold it : frame it = i_flags it :: be32 (declared it) ++ payload_of (i_payload it).
+  Proof. reflexivity. Qed.
+  Lemma declared_some it n : i_len it = Some n -> declared it = n.
+  Proof. unfold C17_Spec.declared. now intros ->. Qed.
+  Lemma declared_none it :
+    i_len it = None -> declared it = N.of_nat (length (payload_of (i_payload it))) mod 4294967296.
+  Proof. unfold C17_Spec.declared. now intros ->. Qed.
+
+  (* both branches of the encoder produce the same layout *)
+  Lemma stream_layout_proof items :
+    Forall (item_ok) items -> write_stream compress items = (wire items, false).
+  Proof.
+    induction 1 as [|it items [Hf Hc] _ IH]; [reflexivity|].
+    cbn [write_stream]. apply N.ltb_ge in Hf. rewrite Hf.
+    rewrite (message_exact_proof _ Hc), IH.
+    rewrite wire_cons, frame_unfold.
+    destruct (i_len it) as [n|] eqn:E; [rewrite (declared_some _ _ E)|rewrite (declared_none _ E)];
+      unfold frame_prefix; cbn [app]; rewrite <- ?app_assoc; reflexivity.
+  Qed.
+
+  (* a flags value above 255 stops the stream there: everything before it was written, nothing after *)
+  Lemma stream_bad_flags_proof good bad rest :
+    Forall item_ok good -> 255 < i_flags bad ->
+    write_stream compress (good ++ bad :: rest) = (wire good, true).
+  Proof.
+    intros HG HB. induction HG as [|it items [Hf Hc] _ IH].
+    - cbn [app write_stream]. apply N.ltb_lt in HB. rewrite HB. reflexivity.
+    - cbn [app write_stream]. apply N.ltb_ge in Hf. rewrite Hf.
+      rewrite (message_exact_proof _ Hc), IH.
+      rewrite wire_cons, frame_unfold.
+      destruct (i_len it) as [n|] eqn:E; [rewrite (declared_some _ _ E)|rewrite (declared_none _ E)];
+        unfold frame_prefix; cbn [app]; rewrite <- ?app_assoc; reflexivity.
+  Qed.
+
+  Lemma firstn_app_exact {A} (a b : list A) : firstn (length a) (a ++ b) = a.
+  Proof. induction a; simpl; [destruct b; reflexivity|now f_equal]. Qed.
+  Lemma skipn_app_exact {A} (a b : list A) : skipn (length a) (a ++ b) = b.
+  Proof. induction a; simpl; [reflexivity|assumption]. Qed.
+
+  Lemma parse_one_frame f n p rest :
+    n < 4294967296 ->
+    parse_one (f :: be32 n ++ p ++ rest) =
+    if n <=? N.of_nat (length (p ++ rest))
+    then Some (f, n, firstn (N.to_nat n) (p ++ rest), skipn (N.to_nat n) (p ++ rest)) else None.
+  Proof.
+    intros H. pose proof (be_decode_be32 n H) as E. unfold be32 in *. cbn [app parse_one]. rewrite E. reflexivity.
+  Qed.
+
+  (* whatever the explicit length says, the reader sees the flags, that length, and the next
+     `length` bytes of (payload ++ the following frames) *)
+  Lemma explicit_length_head_proof it rest n :
+    item_ok it -> Forall item_ok rest -> i_len it = Some n -> n < 4294967296 ->
+    parse_one (fst (write_stream compress (it :: rest))) =
+    let following := payload_of (i_payload it) ++ wire rest in
+    if n <=? N.of_nat (length following)
+    then Some (i_flags it, n, firstn (N.to_nat n) following, skipn (N.to_nat n) following) else None.
+  Proof.
+    intros Hi Hr Hl Hn. rewrite stream_layout_proof by (constructor; assumption).
+    cbn [fst]. rewrite wire_cons, frame_unfold, (declared_some _ _ Hl).
+    cbn [app]. rewrite <- app_assoc. apply parse_one_frame. exact Hn.
+  Qed.
+
+  Lemma wire_length_fuel items (b : bytes) : (length (wire items ++ b) >= length items)%nat.
+  Proof.
+    induction items as [|it items IH]; [simpl; lia|].
+    rewrite wire_cons, frame_unfold. cbn [app length].
+    rewrite <- !app_assoc, !app_length in *. unfold be32. cbn [length]. lia.
+  Qed.
+
+  Lemma parse_loop_wire fuel items :
+    Forall (honest compress) items -> (fuel > length items)%nat ->
+    parse_loop fuel (wire items) =
+    (map (fun it => (i_flags it, N.of_nat (length (payload_of (i_payload it))), payload_of (i_payload it))) items, []).
+  Proof.
+    intros HH. revert fuel. induction HH as [|it items [Hlt Hex] _ IH]; intros fuel Hf.
+    - destruct fuel; [lia|]. reflexivity.
+    - destruct fuel as [|fuel]; [simpl in Hf; lia|]. cbn [parse_loop].
+      rewrite wire_cons, frame_unfold.
+      assert (ED : declared it = N.of_nat (length (payload_of (i_payload it)))).
+      { destruct (i_len it) as [n|] eqn:E; [rewrite (declared_some _ _ E); exact Hex|].
+        rewrite (declared_none _ E). apply N.mod_small. exact Hlt. }
+      rewrite ED. cbn [app]. rewrite <- app_assoc. rewrite parse_one_frame by exact Hlt.
+      rewrite app_length, Nat2N.inj_add.
+      destruct (N.leb_spec (N.of_nat (length (payload_of (i_payload it))))
+                           (N.of_nat (length (payload_of (i_payload it))) + N.of_nat (length (wire items)))); [|lia].
+      rewrite Nat2N.id, firstn_app_exact, skipn_app_exact.
+      rewrite IH by (simpl in Hf; lia). reflexivity.
+  Qed.
+
+  Lemma stream_invertible_proof items :
+    codec_ok compress decompress -> Forall item_ok items -> Forall (honest compress) items ->
+    write_stream compress items = (wire items, false) /\
+    parse_envelopes (wire items) =
+      (map (fun it => (i_flags it, N.of_nat (length (payload_of (i_payload it))), payload_of (i_payload it))) items, []) /\
+    map (fun it => decode_payload decompress (i_payload it) (payload_of (i_payload it))) items =
+      map (fun it => Some (data_of (i_payload it))) items.
+  Proof.
+    intros OK HI HH. split; [apply stream_layout_proof; exact HI|]. split.
+    - unfold parse_envelopes. apply parse_loop_wire; [exact HH|].
+      pose proof (wire_length_fuel items []) as L. rewrite app_nil_r in L. lia.
+    - apply map_ext_in. intros it Hin. rewrite Forall_forall in HI. destruct (HI _ Hin) as [_ Hc].
+      apply decode_payload_ok; assumption.
+  Qed.
+End Bodies.
+
+(* ================= raw or normal ================= *)
+Definition untouched (w : iw) : Prop := iw_sent w = None /\ iw_body w = [] /\ iw_flushed w = false.
+
+Lemma untouched_hdr h w : untouched w -> untouched (iw_with_hdr h w).
+Proof. intros H; exact H. Qed.
+
+Ltac rw_norm :=
+  cbn [step can_send rw_started rw_raw rw_inner direct returns begin last_raw decided_raw starts];
+  unfold on_hdr, with_inner;
+  cbn [step can_send rw_started rw_raw rw_inner direct returns begin last_raw decided_raw starts].
+
+Lemma run_ops_cons s o rest :
+  run_ops s (o :: rest) =
+  match step s o with
+  | None => None
+  | Some (s', r) => match run_ops s' rest with None => None | Some (s'', r') => Some (s'', r ++ r') end
+  end.
+Proof. reflexivity. Qed.
+
+(* once a normal response has started the wrapper is transparent *)
+Lemma run_normal ops : forall w,
+  run_ops (mk_rw None true w) ops =
+  match direct w ops with Some w' => Some (mk_rw None true w', returns Normal ops) | None => None end.
+Proof.
+  induction ops as [|o ops IH]; intros w; [reflexivity|].
+  rewrite run_ops_cons.
+  destruct o as [k v|k v|k|c|b| |r0| ]; rw_norm;
+    try (rewrite IH; destruct (direct _ ops); reflexivity).
+  destruct (iw_write_header c w) as [w1|]; [|reflexivity].
+  rewrite IH; destruct (direct _ ops); reflexivity.
+Qed.
+
+(* once a raw response is stored nothing reaches the inner writer but header-map edits *)
+Lemma run_raw ops : forall r w, untouched w ->
+  exists w', run_ops (mk_rw (Some r) false w) ops = Some (mk_rw (last_raw ops (Some r)) false w', returns Raw ops)
+             /\ untouched w'.
+Proof.
+  induction ops as [|o ops IH]; intros r w U; [exists w; split; [reflexivity|exact U]|].
+  rewrite run_ops_cons.
+  destruct o as [k v|k v|k|c|b| |r0| ]; rw_norm;
+    match goal with |- context [run_ops (mk_rw (Some ?r1) false ?w1) ops] =>
+      destruct (IH r1 w1 U) as (w' & E & U'); rewrite E; exists w'; (split; [reflexivity|exact U']) end.
+Qed.
+
+Lemma run_undecided ops : forall w, untouched w ->
+  if decided_raw ops then
+    exists w' r, last_raw ops None = Some r /\
+                 run_ops (mk_rw None false w) ops = Some (mk_rw (Some r) false w', returns Undecided ops) /\
+                 untouched w'
+  else match direct w ops with
+       | Some w' => exists st, run_ops (mk_rw None false w) ops = Some (mk_rw None st w', returns Undecided ops)
+       | None => run_ops (mk_rw None false w) ops = None
+       end.
+Proof.
+  induction ops as [|o ops IH]; intros w U; [exists false; reflexivity|].
+  rewrite !run_ops_cons.
+  destruct o as [k v|k v|k|c|b| |r0| ]; rw_norm.
+  1-3: (match goal with |- context [run_ops (mk_rw None false ?w1) ?ops'] =>
+          specialize (IH w1 (untouched_hdr _ _ U)); 
+          destruct (decided_raw ops');
+          [destruct IH as (w' & r & L & E & U'); rewrite E; exists w', r; auto
+          |destruct (direct w1 ops') as [w'|];
+           [destruct IH as (st & E); rewrite E; exists st; reflexivity|rewrite IH; reflexivity]] end).
+  - (* WriteHeader *)
+    destruct (iw_write_header c w) as [w1|]; [|reflexivity].
+    rewrite run_normal. destruct (direct w1 ops); [exists true; reflexivity|reflexivity].
+  - rewrite run_normal. destruct (direct _ ops); [exists true; reflexivity|reflexivity].
+  - rewrite run_normal. destruct (direct _ ops); [exists true; reflexivity|reflexivity].
+  - (* setRawResponse *)
+    destruct (run_raw ops r0 w U) as (w' & E & U'). rewrite E.
+    assert (exists r', last_raw ops (Some r0) = Some r') as (r' & L).
+    { clear. generalize r0. induction ops as [|o ops IH]; intros r; [exists r; reflexivity|].
+      destruct o; simpl; auto. }
+    rewrite L. exists w', r'. auto.
+  - rewrite run_normal. destruct (direct _ ops); [exists true; reflexivity|reflexivity].
+Qed.
+
+Lemma values_of_prefixed k hs :
+  Forall (fun h => token (h_name h)) hs -> values_of (trailer_prefix ++ k) hs = [].
+Proof.
+  induction 1 as [|hd hs Th _ IH]; [reflexivity|].
+  unfold values_of. cbn [flat_map]. fold (values_of (trailer_prefix ++ k) hs). rewrite IH.
+  destruct (bytes_eqb_spec (trailer_prefix ++ k) (canon (h_name hd))) as [Eq|]; [|reflexivity].
+  exfalso. apply (canon_token_no_colon _ Th). rewrite <- Eq. apply prefixed_has_colon.
+Qed.
+
+Lemma decl_vals k ts h :
+  k <> trailer_key -> hm_vals k (fold_left (fun h t => hm_add trailer_key (h_name t) h) ts h) = hm_vals k h.
+Proof.
+  intros Hk. revert h; induction ts as [|t ts IH]; intros h; [reflexivity|].
+  simpl. rewrite IH, hm_vals_add.
+  destruct (bytes_eqb_spec k (canon trailer_key)) as [->|]; [exfalso; apply Hk; reflexivity|reflexivity].
+Qed.
+Lemma decl_get k ts h :
+  k <> trailer_key -> hm_get k (fold_left (fun h t => hm_add trailer_key (h_name t) h) ts h) = hm_get k h.
+Proof.
+  intros Hk. revert h; induction ts as [|t ts IH]; intros h; [reflexivity|].
+  simpl. rewrite IH, hm_get_add.
+  destruct (bytes_eqb_spec k (canon trailer_key)) as [->|]; [exfalso; apply Hk; reflexivity|reflexivity].
+Qed.
+
+Section Arbitration.
+  Variable compress : N -> bytes -> bytes.
+
+  Lemma emit_untouched snap r w :
+    untouched w -> emit compress snap r w = emit compress snap r (iw_new snap).
+  Proof.
+    intros (S & B & F). destruct w as [h s b f]. simpl in *. subst. reflexivity.
+  Qed.
+
+  (* the outcome of any history: the raw emission on an untouched writer, or the handler alone *)
+  Lemma raw_or_handler_proof snap ops :
+    serve compress snap ops =
+    option_map (fun w => (w, returns Undecided ops))
+      (match raw_choice ops with
+       | Some r => emit compress snap r (iw_new snap)
+       | None => direct (iw_new snap) ops
+       end).
+  Proof.
+    unfold serve, raw_choice.
+    pose proof (run_undecided ops (iw_new snap) (conj eq_refl (conj eq_refl eq_refl))) as H.
+    destruct (decided_raw ops).
+    - destruct H as (w' & r & L & E & U). rewrite E, L. unfold finish. cbn [rw_raw rw_inner].
+      rewrite (emit_untouched snap r w' U).
+      destruct (emit compress snap r (iw_new snap)); reflexivity.
+    - destruct (direct (iw_new snap) ops) as [w'|].
+      + destruct H as (st & E). rewrite E. reflexivity.
+      + rewrite H. reflexivity.
+  Qed.
+
+  (* what the raw emission consists of *)
+  Lemma raw_exact_proof snap r w :
+    NoDup (map fst snap) ->
+    emit compress snap r (iw_new snap) = Some w ->
+    fst (committed w) = (if r_status r =? 0 then 200 else r_status r) /\
+    (forall k, k <> date_key -> k <> trailer_key ->
+               hm_vals k (snd (committed w)) = hm_vals k snap ++ values_of k (r_headers r)) /\
+    hm_get date_key (snd (committed w)) = Some [] /\
+    iw_body w = fst (write_body compress (r_body r)) /\
+    iw_flushed w = false /\
+    (forall k, (forall kv, In kv snap -> ~ In 58 (fst kv)) -> Forall (fun h => token (h_name h)) (r_headers r) ->
+               hm_vals (trailer_prefix ++ k) (iw_hdr w) = values_of k (r_trailers r)).
+  Proof.
+    intros ND E. unfold emit in E.
+    set (h0 := fold_left (fun h kv => hm_put (fst kv) (snd kv) h) snap []) in *.
+    set (h1 := add_headers (r_headers r) h0) in *.
+    set (h2 := hm_put date_key [] h1) in *.
+    set (h3 := fold_left (fun h t => hm_add trailer_key (h_name t) h) (r_trailers r) h2) in *.
+    set (code := if r_status r =? 0 then 200 else r_status r) in *.
+    unfold iw_write_header in E. cbn [iw_new iw_with_hdr iw_sent iw_hdr iw_body iw_flushed] in E.
+    destruct ((code <? 100) || (999 <? code)); [discriminate|].
+    injection E as <-.
+    unfold iw_write, iw_commit, committed, iw_with_hdr; cbn [iw_sent iw_hdr iw_body iw_flushed fst snd app].
+    assert (Hother : forall k, k <> trailer_key -> hm_vals k h3 = hm_vals k h2)
+      by (intros; apply decl_vals; assumption).
+    assert (Hget : forall k, k <> trailer_key -> hm_get k h3 = hm_get k h2)
+      by (intros; apply decl_get; assumption).
+    repeat split.
+    - intros k Hd Ht. rewrite (Hother k Ht). unfold h2. rewrite hm_vals_put.
+      destruct (bytes_eqb_spec k date_key) as [Ed|_]; [exfalso; apply Hd; exact Ed|].
+      unfold h1. rewrite add_headers_vals. unfold h0. rewrite restore_vals by exact ND. reflexivity.
+    - rewrite Hget by discriminate. unfold h2. rewrite hm_get_put. reflexivity.
+    - intros k Hsnap Htok. rewrite add_trailers_vals.
+      assert (Z0 : hm_vals (trailer_prefix ++ k) h3 = []); [|rewrite Z0; reflexivity].
+      rewrite Hother by discriminate. unfold h2. rewrite hm_vals_put.
+      change (bytes_eqb (trailer_prefix ++ k) date_key) with false. cbv iota.
+      unfold h1. rewrite add_headers_vals. unfold h0. rewrite restore_vals by exact ND.
+      assert (Z1 : hm_vals (trailer_prefix ++ k) snap = []).
+      { unfold hm_vals. rewrite hm_get_notin; [reflexivity|].
+        intros HI. apply in_map_iff in HI as (kv & Ek & Hkv). apply (Hsnap kv Hkv). rewrite Ek. apply prefixed_has_colon. }
+      rewrite Z1. rewrite values_of_prefixed by exact Htok. reflexivity.
+  Qed.
+
+  (* the interceptor stores the raw response first, for every RPC kind; what connect-go does afterwards is irrelevant *)
+  Lemma recorder_proof snap k r after normal :
+    Forall (fun o => match o with OSetRaw _ => False | _ => True end) after ->
+    option_map fst (serve compress snap (rpc_ops k (Some r) after normal)) = emit compress snap r (iw_new snap).
+  Proof.
+    intros HA. rewrite raw_or_handler_proof. unfold rpc_ops.
+    replace (recognised k) with true by (destruct k; reflexivity).
+    unfold raw_choice. cbn [decided_raw last_raw].
+    assert (L : last_raw after (Some r) = Some r).
+    { induction HA as [|o ops Ho _ IH]; [reflexivity|]. destruct o; simpl; try exact IH. contradiction. }
+    rewrite L. destruct (emit compress snap r (iw_new snap)); reflexivity.
+  Qed.
+End Arbitration.
+
+(* ================= raw request ================= *)
+Lemma qm_add_vals k n vs q :
+  hm_vals k (qm_add n vs q) = if bytes_eqb k n then hm_vals k q ++ vs else hm_vals k q.
+Proof. unfold qm_add. rewrite hm_vals_put. destruct (bytes_eqb_spec k n) as [->|]; reflexivity. Qed.
+
+Lemma rawq_vals k l q :
+  hm_vals k (fold_left (fun m h => qm_add (h_name h) (h_vals h) m) l q) = hm_vals k q ++ qvalues_of k l.
+Proof.
+  revert q; induction l as [|hd l IH]; intros q; simpl; [now rewrite app_nil_r|].
+  rewrite IH, qm_add_vals. destruct (bytes_eqb k (h_name hd)); [now rewrite <- app_assoc|reflexivity].
+Qed.
+
+Section Request.
+  Variable compress : N -> bytes -> bytes.
+
+  Lemma add_encq_vals es : forall q,
+    Forall (fun e => contents_ok (e_value e)) es ->
+    exists q', add_encq compress es q = Some q' /\
+               forall k, hm_vals k q' = hm_vals k q ++ enc_values_of compress k es.
+  Proof.
+    induction es as [|e es IH]; intros q HF.
+    - exists q. split; [reflexivity|]. intros k. simpl. now rewrite app_nil_r.
+    - inversion HF as [|? ? He HF']; subst. cbn [add_encq]. unfold enc_value.
+      rewrite (message_exact_proof compress _ He).
+      destruct (IH (qm_add (e_name e) [if e_b64 e then b64url (payload_of compress (e_value e))
+                                       else payload_of compress (e_value e)] q) HF') as (q' & E & V).
+      exists q'. split; [exact E|]. intros k. rewrite V, qm_add_vals. unfold enc_values_of. cbn [flat_map].
+      unfold enc_text. destruct (bytes_eqb k (e_name e)); [now rewrite <- app_assoc|reflexivity].
+  Qed.
+
+  Lemma request_exact_proof orig r :
+    token (q_verb r) -> Forall (fun e => contents_ok (e_value e)) (q_encq r) ->
+    exists s, raw_request compress orig r = Some s /\
+      s_method s = match q_verb r with [] => bs "GET" | v => v end /\
+      s_path s = fst (split_first 63 (q_uri r)) /\
+      s_body s = fst (write_body compress (q_body r)) /\
+      (forall k, hm_vals k (s_headers s) = values_of k (q_headers r)) /\
+      (forall k, hm_vals k (s_query s) =
+                 hm_vals k (uri_query (q_uri r)) ++ qvalues_of k (q_rawq r) ++ enc_values_of compress k (q_encq r)).
+  Proof.
+    intros Tv HF. unfold raw_request, uri_query.
+    destruct (split_first 63 (q_uri r)) as [path q]. cbn [fst snd].
+    set (q0 := parse_query match q with Some q1 => q1 | None => [] end).
+    destruct (add_encq_vals (q_encq r) (fold_left (fun m h => qm_add (h_name h) (h_vals h) m) (q_rawq r) q0) HF)
+      as (q2 & E & V).
+    rewrite E. unfold token in Tv. rewrite Tv. eexists. split; [reflexivity|]. cbn.
+    repeat split.
+    - intros k. rewrite add_headers_vals. reflexivity.
+    - intros k. rewrite V, rawq_vals, <- app_assoc. reflexivity.
+  Qed.
+
+  (* nothing of the request that had been built survives *)
+  Lemma request_ignores_orig_proof o1 o2 r : raw_request compress o1 r = raw_request compress o2 r.
+  Proof. reflexivity. Qed.
+End Request.
